@@ -22,6 +22,8 @@ const VARIANTS = {
     missingfile: 'import { Z } from "./zzz";\nexport type A = { z: Z };',
     // the same file reached through an inline import type (resolved while the type is extracted, not while the module is bound)
     importtype: 'export type A = { z: import("./zzz").Z };',
+    // a directory import: resolves to shape/index.ts until shape.ts is created, which then takes precedence
+    viadir: 'import { S } from "./shape";\nexport type A = { s: S };',
     broken: "export type A = { x: ;",
     empty: "/* commented out: export type A = {} */\n",
   },
@@ -40,7 +42,11 @@ const VARIANTS = {
     broken: "export type Z = {{",
   },
 };
+// a second file that does not exist at first: once created it shadows the static shape/index.ts for the specifier "./shape"
+VARIANTS["shape.ts"] = { absent: null, ok1: 'export type S = { from: "file" };' };
 const FILES = Object.keys(VARIANTS);
+// what a session may remember about a file beyond its current text: the classes of content it has been given so far
+const variantClass = (v) => (v === "broken" ? "broken" : ["unres", "missingfile", "importtype", "viadir", "viabarrel"].includes(v) ? "special" : v === "empty" ? "empty" : "ok");
 
 function normalise(obs) {
   // what the user of the CLI sees: generated code, or the diagnostics
@@ -57,13 +63,13 @@ export async function run() {
   const samples = [];
   const outcomes = new Set();
   const MAXDEPTH = TIER === "thorough" ? 7 : 4;
-  const STATECAP = TIER === "thorough" ? 40000 : 3000;
+  const STATECAP = TIER === "thorough" ? 60000 : 12000;
   try {
     const actions = [];
     for (const f of FILES) for (const v of Object.keys(VARIANTS[f])) if (VARIANTS[f][v] !== null) actions.push({ kind: "update", f, v });
     actions.push({ kind: "rebuild" });
-    const initialFs = () => Object.fromEntries(FILES.map((f) => [f, f === "zzz.ts" ? "absent" : "ok1"]));
-    const STATIC = { "bar.ts": 'export * from "./b";' }; // never edited
+    const initialFs = () => Object.fromEntries(FILES.map((f) => [f, VARIANTS[f].absent === null ? "absent" : "ok1"]));
+    const STATIC = { "bar.ts": 'export * from "./b";', "shape/index.ts": 'export type S = { from: "index" };' }; // never edited
     const fsText = (fsv) => ({ ...STATIC, ...Object.fromEntries(FILES.filter((f) => VARIANTS[f][fsv[f]] !== null).map((f) => [f, VARIANTS[f][fsv[f]]])) });
     const actText = (a) => (a.kind === "rebuild" ? "rebuild" : `update(${a.f}, ${a.v})`);
     const freshCache = new Map();
@@ -86,9 +92,11 @@ export async function run() {
       stats.replays++;
       const fsv = initialFs();
       const ops = [];
+      const ever = new Set();
       for (const a of hist) {
         if (a.kind === "update") {
           fsv[a.f] = a.v;
+          if (variantClass(a.v) !== "ok") ever.add(a.f + ":" + variantClass(a.v));
           ops.push({ op: "update", file: a.f, content: VARIANTS[a.f][a.v] });
         } else ops.push({ op: "bundle" });
       }
@@ -100,11 +108,11 @@ export async function run() {
       if (r.dead || r.panic) return { fsv, crash: r.dead ? "dead:" + r.reason : "panic:" + r.panic.site + ":" + r.panic.msg };
       const bundles = r.obs.filter((o) => o.op === "bundle");
       const fp = r.obs.find((o) => o.op === "fingerprint");
-      return { fsv, opsHist: ops.slice(0, -2), fingerprint: JSON.stringify(fp.cache), probe: normalise(bundles[bundles.length - 1]), last: hist.length && hist[hist.length - 1].kind === "rebuild" ? normalise(bundles[bundles.length - 2]) : null };
+      return { fsv, ever: [...ever].sort().join(","), opsHist: ops.slice(0, -2), fingerprint: JSON.stringify(fp.cache), probe: normalise(bundles[bundles.length - 1]), last: hist.length && hist[hist.length - 1].kind === "rebuild" ? normalise(bundles[bundles.length - 2]) : null };
     };
     const seen = new Map(); // key -> history
     const start = await replay([]);
-    seen.set(JSON.stringify([start.fsv, start.fingerprint]), []);
+    seen.set(JSON.stringify([start.fsv, start.fingerprint, start.ever]), []);
     let frontier = [[]];
     let depth = 0;
     let closed = false;
@@ -144,7 +152,10 @@ export async function run() {
                   rep.violation(`C14 rebuild differs from a fresh process : ${kind} : ${hR.map((x) => (x.kind === "rebuild" ? "rebuild" : x.f.replace(".ts", "") + ":" + x.v.replace(/[12]$/, ""))).join(" ; ")}`, `after ${htxtR.join(" ; ")} the session answers ${lastR.slice(0, 160)} but a fresh process on the same contents answers ${f.text.slice(0, 160)}`, { engine: "E-rs", history: htxtR, contents: st.fsv, initial_files: fsText(initialFs()), ops: opsR, current_files: fsText(st.fsv), session: so, fresh: fo });
                 } else outcomes.add(sha(f.text));
               }
-              const key = JSON.stringify([st.fsv, st.fingerprint]);
+              // the key is deliberately finer than the state the implementation keeps today (contents + cached modules): it
+              // also separates histories by the classes of content each file has had (broken / special / empty), so that
+              // state a changed implementation might keep about past contents cannot be merged away
+              const key = JSON.stringify([st.fsv, st.fingerprint, st.ever]);
               if (!seen.has(key)) {
                 seen.set(key, h2);
                 next.push(h2);
@@ -174,7 +185,7 @@ export async function run() {
       traces_validated_against_impl: stats.replays,
       samples,
       exhaustive: !!stats.closed,
-      explanation: "project entry.ts -> a.ts (named import) -> b.ts (namespace import), plus zzz.ts which does not exist at first and is imported only by one variant of a.ts (creating it is an update from nothing); a static barrel bar.ts (export * from b.ts) through which one entry variant takes a value; contents per file: two valid variants (the first ones carry JSDoc on a type and on a property, which the generated code must keep on every rebuild), a value through the barrel, unresolvable reference, import of the not-yet-existing file, syntactically broken, empty/comment-only (6+7+4+3 update actions + rebuild; the file that is created later can also be created with text that does not parse, and can be reached through an inline import type); BFS over histories, canonical state = (content-variant vector, cache fingerprint = per cached file a hash of the cached module's source text, read through the hook), every state reached by replaying its shortest history in a fresh session; invariant at every rebuild transition: (code | diagnostics, both entry points) equal those of a fresh session serving the current contents. " + (stats.closed ? "closure reached" : `depth bound ${stats.depth} completed (state cap ${STATECAP})`),
+      explanation: "project entry.ts -> a.ts (named import) -> b.ts (namespace import), plus zzz.ts which does not exist at first and is imported only by one variant of a.ts (creating it is an update from nothing); a static barrel bar.ts (export * from b.ts) through which one entry variant takes a value; contents per file: two valid variants (the first ones carry JSDoc on a type and on a property, which the generated code must keep on every rebuild), a value through the barrel, unresolvable reference, import of the not-yet-existing file, syntactically broken, empty/comment-only (6+7+4+3 update actions + rebuild; the file that is created later can also be created with text that does not parse, and can be reached through an inline import type); BFS over histories, canonical state = (content-variant vector, cache fingerprint = per cached file a hash of the cached module's source text, read through the hook, set of (file, content class) pairs the history has gone through - finer than what the implementation keeps, so hidden memory of past contents is not merged away); a second late-created file shadows a directory index, every state reached by replaying its shortest history in a fresh session; invariant at every rebuild transition: (code | diagnostics, both entry points) equal those of a fresh session serving the current contents. " + (stats.closed ? "closure reached" : `depth bound ${stats.depth} completed (state cap ${STATECAP})`),
       depth_completed: stats.depth,
       depth_max_history: stats.maxDepth,
       rebuild_transitions_checked: stats.rebuilds,
